@@ -1,8 +1,9 @@
-CONSTANTS N = 14  K = 1  BigK = {}  MaxLevel = 999
+CONSTANTS N = 14  K = 1  BigK = {} AllKz = FALSE  AllSp = FALSE  MaxLevel = 999
 SPECIFICATION TSpec
 CONSTRAINT Progress
 POSTCONDITION Report
 INVARIANT RotateIsGeometric
 INVARIANT RotatePreservesRing
+INVARIANT RotateKeepsAxial
 INVARIANT RotateSixIsIdentity
 CHECK_DEADLOCK FALSE
